@@ -68,6 +68,7 @@ type Master struct {
 	mu    sync.Mutex
 	plan  *ServePlan
 	conns []*ConnRecord
+	open  []net.Conn
 	wg    sync.WaitGroup
 }
 
@@ -102,7 +103,14 @@ func (m *Master) Addr() string { return m.addr }
 func (m *Master) DSN() string {
 	return "u:p@tcp(" + m.Addr() + ")/db?maxAllowedPacket=67108864"
 }
-func (m *Master) Close() { m.ln.Close() }
+func (m *Master) Close() {
+	m.ln.Close()
+	m.mu.Lock()
+	for _, c := range m.open {
+		c.Close()
+	}
+	m.mu.Unlock()
+}
 
 // SetPlan installs the plan for the next connection and returns the record that connection will fill.
 func (m *Master) SetPlan(p *ServePlan) *ConnRecord {
@@ -126,11 +134,13 @@ func (m *Master) acceptLoop(ln net.Listener) {
 		if len(m.conns) > 0 {
 			rec = m.conns[len(m.conns)-1]
 		}
-		m.mu.Unlock()
 		if p == nil || rec == nil {
+			m.mu.Unlock()
 			c.Close()
 			continue
 		}
+		m.open = append(m.open, c)
+		m.mu.Unlock()
 		go m.serve(c, p, rec)
 	}
 }
